@@ -168,6 +168,30 @@ pub fn component_main(
         }
         Some("eval") => {
             std::panic::set_hook(Box::new(|_| {}));
+            // watchdog: a case that does not come back (the real code loops or waits for ever) is reported, not waited for:
+            // the input line is written to $S3V_HANG_FILE and the process exits with status 3 (bin/check turns that into a
+            // violation of class `hang` with that input as the replay)
+            let current: std::sync::Arc<std::sync::Mutex<Option<(String, std::time::Instant)>>> = std::sync::Arc::default();
+            {
+                let current = current.clone();
+                let limit = std::env::var("S3V_CASE_TIMEOUT").ok().and_then(|s| s.parse::<u64>().ok()).unwrap_or(300);
+                std::thread::spawn(move || loop {
+                    std::thread::sleep(std::time::Duration::from_millis(500));
+                    let hung = match &*current.lock().unwrap_or_else(std::sync::PoisonError::into_inner) {
+                        Some((input, t0)) if t0.elapsed().as_secs() >= limit => Some(input.clone()),
+                        _ => None,
+                    };
+                    if let Some(input) = hung {
+                        match std::env::var("S3V_HANG_FILE") {
+                            Ok(path) => {
+                                let _ = std::fs::write(path, format!("{input}\n"));
+                            }
+                            Err(_) => eprintln!("HANG after {limit} s: {input}"),
+                        }
+                        std::process::exit(3);
+                    }
+                });
+            }
             let stdin = std::io::stdin();
             for line in stdin.lock().lines() {
                 let Ok(line) = line else { break };
@@ -184,7 +208,9 @@ pub fn component_main(
                 if fields.len() < 2 || fields[0] != component {
                     continue;
                 }
+                *current.lock().unwrap_or_else(std::sync::PoisonError::into_inner) = Some((input.to_owned(), std::time::Instant::now()));
                 let res = std::panic::catch_unwind(|| evaluate(&fields[2..]));
+                *current.lock().unwrap_or_else(std::sync::PoisonError::into_inner) = None;
                 let outs = match res {
                     Ok(o) => o.join("\t"),
                     Err(_) => "PANIC".to_owned(),
